@@ -75,7 +75,7 @@ class Scenario:
 class Exec:
     """Result of one execution (picklable)."""
     __slots__ = ("plan", "exit", "signal", "timed_out", "stdout", "stderr", "trace", "src", "proj_other", "tmp",
-                 "cwd", "outside", "lock", "meta_before", "meta_after", "post_check_exit", "post_check_out")
+                 "cwd", "outside", "lock", "meta_before", "meta_after", "post_check_exit", "post_check_out", "post_mut_ops", "post_snap_diff")
 
     def terminated(self):
         if self.timed_out:
@@ -150,6 +150,18 @@ def execute(args):
                                   tmpdir=tmpdir, timeout=30)
             x.post_check_exit = pc.exit if pc.signal is None else -pc.signal
             x.post_check_out = pc.stdout
+        x.post_mut_ops = None
+        x.post_snap_diff = None
+        if opt.get("then_check_monitored"):
+            # a --check run on whatever state the (possibly killed) run left behind, under the monitor
+            dirs = (proj, tmpdir, os.path.join(work, "cwd"), os.path.join(work, "outside"))
+            before = {r_: cli.snapshot(r_) for r_ in dirs}
+            pc = cli.run_breadlog(os.path.join(proj, "Breadlog.yaml"), check=True, cwd=os.path.join(work, "cwd"), tmpdir=tmpdir, timeout=30,
+                                  shim={"log": os.path.join(work, "fsx2.log"), "roots": roots, "plan": ""})
+            after = {r_: cli.snapshot(r_) for r_ in dirs}
+            x.post_check_exit = pc.exit if pc.signal is None else -pc.signal
+            x.post_mut_ops = [repr(o).replace(work, "$W") for o in pc.trace if o.cls != "log" and (o.cls in ("w", "x") and o.op != "close")]
+            x.post_snap_diff = [(r_.replace(work, "$W"), cli.snapshot_diff(before[r_], after[r_])[:3]) for r_ in dirs if before[r_] != after[r_]]
         if opt.get("tmp_on_disk"):
             shutil.rmtree(tmpdir, ignore_errors=True)
         return x
